@@ -513,6 +513,15 @@ func (it *Interp) localVecMethod(v *LocalVec, name string, call *ast.CallExpr) V
 	case "ElementType":
 		return &OpaqueVal{"scalartype"}
 	}
+	if it.cfg.Borrow != nil {
+		if fd, info := it.cfg.Borrow("vector", name); fd != nil && fd.Body != nil {
+			var args []Value
+			for _, a := range call.Args {
+				args = append(args, it.eval(a))
+			}
+			return it.inlineCall(fd, info, v, args, call.Pos())
+		}
+	}
 	it.undecided(call.Pos(), "method %s on a local vector", name)
 	return nil
 }
